@@ -62,6 +62,8 @@ def gen_plan(rng, tier, index):
                   'weighted': rng.pick(['regress', 'ridge'])}[kind]
         m = {'kind': kind, 'fitter': fitter, 'via_default': rng.chance(0.3)}
         models.append(m)
+    if len(models) > 1 and rng.chance(0.15):
+        models[-1]['name'] = 'm0'          # two models may carry the same name
     opts = {'N': rng.randint(2, 8 if big else 6),
             'k_pattern': rng.pick([1, 2, 2, 3, None]), 'k_rdm': rng.pick([1, 2, 2, 3, None]),
             'n_cv': rng.pick([1, 2, 2, 3]), 'boot_noise_ceil': rng.chance(0.7),
@@ -142,7 +144,8 @@ class ModelRef:
         self.kind = mplan['kind']
         self.salt = 'm%d' % idx
         self.n_basis = {'fixed': 1, 'weighted': 2, 'select': 3, 'interpolate': 3}[self.kind]
-        self.name = 'm%d' % idx
+        self.idx = idx
+        self.name = mplan.get('name') or 'm%d' % idx      # names need not be unique
 
     def basis(self, a, b):
         return [gen.val_b(900 + m, a, b, self.salt) for m in range(self.n_basis)]
@@ -200,7 +203,7 @@ class SpyFitter:
         self.inner, self.log, self.name = inner, log, name
 
     def __call__(self, model, data, method='cosine', pattern_idx=None, pattern_descriptor=None, sigma_k=None):
-        ent = {'fn': 'fitter', 'model': model.name, 'data': data, 'method': method,
+        ent = {'fn': 'fitter', 'model': model.name, 'model_obj': model, 'data': data, 'method': method,
                'pattern_idx': None if pattern_idx is None else normlist(pattern_idx),
                'pattern_descriptor': pattern_descriptor, 'pos': len(self.log)}
         self.log.append(ent)
@@ -223,6 +226,7 @@ def _build_models(plan, log):
                  'ridge': Fitter(fit_regress, ridge_weight=0.3)}[mp['fitter']]
         spy = SpyFitter(inner, log, mp['fitter'])
         m.default_fitter = spy
+        ref.model = m
         models.append(m)
         fitters.append(None if mp.get('via_default') else spy)
         refs.append(ref)
@@ -249,6 +253,34 @@ def _thetas(plan, refs):
 class Obs:
     """everything observed during one routine call"""
     pass
+
+
+def _validate_folds(ctx, plan, ent):
+    """the fold sets a routine generated internally are judged by the C05 partition model right when they are returned
+    (before the routine rewrites their index lists), so that the chain draws -> resample -> folds -> fit -> score is closed"""
+    from checks import c05
+    a, kw = ent['args'], ent['kwargs']
+    src = a[0]
+    rd, pdn = kw.get('rdm_descriptor', 'index'), kw.get('pattern_descriptor', 'index')
+    try:
+        Gr = len(set(normlist(src.rdm_descriptors[rd])))
+        Gp = len(set(normlist(src.pattern_descriptors[pdn])))
+    except Exception:
+        return
+    if ent['fn'] == 'sets_k_fold':
+        info = {'gen': 'sets_k_fold', 'Gr': Gr, 'Gp': Gp, 'fold_rdm': kw.get('k_rdm') or 1, 'fold_pat': kw.get('k_pattern') or 1, 'exhaustive': True}
+    else:
+        nr, npat = kw.get('n_rdm') or 0, kw.get('n_pattern') or 0
+        info = {'gen': 'sets_random', 'Gr': Gr, 'Gp': Gp, 'fold_rdm': 2 if nr > 0 else 1, 'fold_pat': 2 if npat > 0 else 1,
+                'exhaustive': False, 'n_rdm': nr, 'n_pattern': npat, 'n_cv': kw.get('n_cv', 2)}
+    if kw.get('k_rdm') is None and ent['fn'] == 'sets_k_fold' or kw.get('k_pattern') is None and ent['fn'] == 'sets_k_fold':
+        return
+    gplan = {'gen': ent['fn'], 'rdm_desc': rd, 'pat_desc': pdn}
+    tabs = gen.source_tables(plan['spec'])
+    if check_assoc(src, *tabs, value_fn=val_c):
+        return       # the folded object itself is not a faithful resample: reported by the resample clause
+    c05.oracle_A(ctx, gplan, src, tabs, ent['result'], info, value_fn=val_c, prefix=plan['routine'] + ':folds:')
+    ctx.probe('internal_fold_sets_validated')
 
 
 def _fold_small(tr, te):
@@ -285,14 +317,14 @@ def check_crossval_call(ctx, plan, ent, refs, tabs, routine):
                               f'{routine}: {name} set of fold {f} is not a faithful part of the data: {probs[0][1]}')
                 return
         for j, ref in enumerate(refs):
-            mine = [e for e in fits if e['data'] is tr[0] and e['model'] == ref.name]
+            mine = [e for e in fits if e['data'] is tr[0] and e['model_obj'] is ref.model]
             if not mine:
                 # tolerate memoisation on *content*: a fit on data equal to this fold's training set (same values,
                 # same RDMs and conditions, same pattern indices) is a fit on this fold's training set
                 fp = _train_fp(tr)
-                mine = [e for e in ent['all_fits'] if e['model'] == ref.name and _train_fp((e['data'], e['pattern_idx'])) == fp][:1]
+                mine = [e for e in ent['all_fits'] if e['model_obj'] is ref.model and _train_fp((e['data'], e['pattern_idx'])) == fp][:1]
             if len(mine) != 1:
-                others = [e for e in fits if e['model'] == ref.name and id(e) not in used]
+                others = [e for e in fits if e['model_obj'] is ref.model and id(e) not in used]
                 ctx.violation('eval_ref.fit_input', f'{routine}:crossval:fit-not-on-training-set',
                               f'{routine}: fold {f}, model {ref.name}: {len(mine)} fitter calls received exactly this '
                               f'fold\'s training RDMs (fitter calls for the model in this crossval: {len(others)})')
@@ -377,6 +409,7 @@ def run_routine(plan, ctx, script=None, strict=False, N_override=None, quiet_ora
 
     def snap_sets(ent):
         res = ent['result']
+        _validate_folds(ctx, plan, ent)
         try:
             ent['adv_test'] = [list(normlist(t[1])) for t in res[1]]
             ent['adv_train'] = [list(normlist(t[1])) for t in res[0]]
